@@ -10,6 +10,16 @@ CHECKS = {
          "TLA+ acceptor (CmdLine.tla) model-checked with TLC; spec->impl replay of all states; impl->spec trace validation", "6 (C01)"),
  "C10": (MC, "Same specification with the help and version items in the alphabet at every position (HelpWins, HelpSticky checked by TLC); all states replayed, help identified by the command path on its usage line and version by the configured tag; driver lines with inserted help/version items validated by TLC.",
          "TLA+ acceptor (CmdLine.tla: HelpWins/HelpSticky) model-checked with TLC; replay of all states; trace validation", "6 (C10)"),
+ "C03": (MC, "SwapCommutes (exchange of two neighbouring occurrences feeding different fields leaves the outcome unchanged) is an invariant checked by TLC in every reachable state of CmdLine.tla; all lines (hence all permutations up to the bound) are replayed into the real parser; a driver compares every generated sentence with re-interleavings on the real parser and TLC validates all recorded outcomes.",
+         "TLA+ invariant SwapCommutes model-checked with TLC; replay of all states; metamorphic driver + trace validation", "6 (C03)"),
+ "C05": (MC, "ExactlyOnce (each typed item is stored in exactly one accumulator or the line is dead), AllDelivered and NoResurrection are checked by TLC on CmdLine.tla; every line up to the bound - every accepted line with every single insertion/duplication - is replayed and the value compared exactly; driver lines validated by TLC.",
+         "TLA+ action property ExactlyOnce + invariants model-checked with TLC; replay of all states; trace validation", "6 (C05)"),
+ "C06": (MC, "CmdLine.tla's Finish distinguishes absent from invalid per arity; TLC enumerates all lines over {valid, guard-failing, unconvertible} values under every arity and nesting; replay compares class/value and requires the message to carry the conversion or guard text whenever the specification accepts the repaired line.",
+         "TLA+ acceptor model-checked with TLC; replay of all states with carried-text oracle; trace validation", "6 (C06)"),
+ "C08": (MC, "Command trees of depth <= 3 (aliases, optional commands, leaf positionals); ScopeAfterCommand and HelpSticky checked by TLC; all lines up to the bound replayed incl. misplacements, unknown commands, help after each name (help path compared).",
+         "TLA+ acceptor (frames per entered command) model-checked with TLC; replay of all states; trace validation", "6 (C08)"),
+ "C09": (MC, "DashDash action property checked by TLC; 0..3 positionals of every strictness/arity, all lines up to the bound with `--` at every position and dash-looking data on both sides, replayed with exact values.",
+         "TLA+ acceptor (posOnly, strictness in Finish) model-checked with TLC; replay of all states; trace validation", "6 (C09)"),
 }
 NOTE = "Bounded: exhaustive within the stated constants, sampled beyond; trusted: TLC, the JSON reader, the dynamic builder (public bpaf API only)."
 
